@@ -125,6 +125,23 @@ def c13(ctx):
     for i, to in enumerate((1, 5, 1000)):
         rows += gen.sweep_pn_values(ctx.rng, "poll", step=ctx.q(16, 2), to=to, first_id=600 + i, sweeps=not ctx.quick or to == 5)
     run_script(ctx, rows, "special-numbers-early-and-late-polls")
+    # smoke run of the PRODUCTION configuration (guard off, real std::time::Instant): histories whose
+    # reports do not depend on how much time passes (timeout 0: every poll is late; Duration::MAX: none is)
+    rows = gen.random_poll(ctx.rng, ctx.q(6000, 60000), timeouts=[0, -1], first_id=900)
+    rows = [r for r in rows if r["op"] != "tick" and "toh" not in r]
+    script = ctx.work.fresh("script_real-clock_", "ndjson")
+    write_ndjson(script, rows)
+    from common import exec_script
+    exec_script(script, script + ".trace", config="nohook")
+    res2 = validate_trace(ctx.work, script + ".trace")
+    bad = [v for v in res2.of("VIOL") if v[1] == "C13"] + res2.of("TOOLERR")
+    ctx.traces += 1
+    ctx.events += res2.events
+    if bad:
+        ctx.viol.append({"clause": bad[0][2], "trace_index": bad[0][3], "event": None,
+                         "replay": save_replay(ctx, script, script + ".trace", bad[0][3], "real-clock"),
+                         "count": len(bad), "driver": "real-clock (guard off)"})
+    log("trace real-clock (guard off): %d events, %d findings" % (res2.events, len(bad)))
     canary(ctx, trace, corrupt_out("poll", op=("poll",), need_report=ctx.rng.random() < 0.5))
     need = ["poll.early.pending", "poll.late.pending", "poll.late.lsb", "poll.early.flag", "twin.C13", "C13l"]
     vacuity(ctx, need)
